@@ -28,7 +28,7 @@ pub struct Spec {
 /// Depth of the histories of one program: programs named `deep-…` get one more operation,
 /// programs named `shallow-…` one less.
 pub fn depth_of(spec: &Spec, prog: &Program) -> usize {
-    spec.depth + usize::from(prog.name.starts_with("deep-")) - usize::from(prog.name.starts_with("shallow-"))
+    spec.depth + usize::from(prog.name.starts_with("deep-")) + 2 * usize::from(prog.name.starts_with("deeper-")) - usize::from(prog.name.starts_with("shallow-"))
 }
 
 #[derive(Clone, Debug, Serialize, Deserialize)]
@@ -307,6 +307,12 @@ pub fn run_fault_case(prog: &Arc<Program>, hist: &[Op], inject: i64, stats: &mut
             continue;
         }
         let ok = if out_matches(&exp, &out) {
+            true
+        } else if matches!(out, Out::Panic(Pk::Cycle) | Out::Panic(Pk::CancelPropagated)) && matches!(op, Op::Q(n) if world.reaches_plain_cycle(*n)) {
+            // a request that enters a cycle at (or reaches it through) a function without cycle
+            // handling panics with salsa's cycle error, and the heads poisoned by that panic answer
+            // with a propagated panic for the rest of the revision (C14's rule); the reference,
+            // which solves every cycle as a fixpoint, has no value to offer for it
             true
         } else if fired_at.is_some() && rev == fired_rev && matches!(out, Out::Panic(Pk::CancelPropagated)) {
             // same revision as the panic: a function that depends on a cycle may still answer
